@@ -51,6 +51,7 @@ type record struct {
 	Sig     string         `json:"sig,omitempty"`
 	What    string         `json:"what,omitempty"`
 	Hang    bool           `json:"hang,omitempty"`
+	OpKind  string         `json:"opkind,omitempty"` // kind of the faulted operation of the site (hang records)
 	Replay  any            `json:"replay,omitempty"`
 	Evals   int            `json:"evals,omitempty"`
 	Keys    []string       `json:"keys,omitempty"`  // distinct-case keys
@@ -145,6 +146,9 @@ type siteResult struct {
 	recovered []string
 	notes     []string
 	counts    map[string]int
+	// zipsBefore: zips uploaded successfully to blobpacked's large store by the faulted operation
+	// before its first delivered fault
+	zipsBefore int
 }
 
 // runOnce executes the history on a fresh instance.  st == nil is the fault-free run.
@@ -203,11 +207,11 @@ func (rn *runner) runOnce(st *site) (res siteResult, lr *learned, fatal error) {
 			res.counts["violation_records_suppressed"]++
 			return
 		}
-		sid := -1
+		sid, kind := -1, ""
 		if st != nil {
-			sid = st.Idx
+			sid, kind = st.Idx, h.Ops[st.Op].Kind
 		}
-		emit(record{T: "viol", Backend: rn.def.Name, Site: sid, Sig: sig, What: fmt.Sprintf("[%s] %s", rn.def.Name, what), Hang: hang, Replay: mkWitness()})
+		emit(record{T: "viol", Backend: rn.def.Name, Site: sid, Sig: sig, What: fmt.Sprintf("[%s] %s", rn.def.Name, what), Hang: hang, OpKind: kind, Replay: mkWitness()})
 	}
 	classify := func(r rep) {
 		switch {
@@ -420,6 +424,8 @@ func (rn *runner) runOnce(st *site) (res siteResult, lr *learned, fatal error) {
 			for _, cl := range in.plan.Log() {
 				if cl.Mode != "" {
 					res.delivered = append(res.delivered, cl)
+				} else if len(res.delivered) == 0 && cl.Layer == "bp-large" && cl.Op == "ReceiveBlob" {
+					res.zipsBefore++
 				}
 			}
 			if len(res.delivered) > 0 {
